@@ -42,8 +42,8 @@ type c10Cfg struct {
 	// its dial_addr, as in "tls://dns.example" reached through two different addresses.
 	SharedURL bool
 	Ups       []string
-	Sets  []c10Set
-	Rules []c10Rule
+	Sets      []c10Set
+	Rules     []c10Rule
 }
 
 var c10Suffixes = []string{"a.test", "b.test", "x.a.test", "y.x.a.test", "c.example", "test", "d.c.example"}
